@@ -466,9 +466,9 @@ class SymmetryElement(object):
         :return: True/False
         """
         m = (self.matrix == other.matrix)
-        t1 = Array([v % 1 for v in self.trans])
-        t2 = Array([v % 1 for v in other.trans])
-        t = (t1 == t2)
+        # The translations have to differ by whole numbers. Comparing "v % 1" of the floats fails
+        # for thirds and sixths: (1/3 + 1) % 1 is 0.33333333333333326, not 0.3333333333333333.
+        t = all([abs(d - round(d)) < 1e-9 for d in (a - b for (a, b) in zip(self.trans, other.trans))])
         return m and t
 
     def __sub__(self, other):
